@@ -10,8 +10,14 @@
 
 namespace hm {
 
-constexpr int NSLOT = 4;  // expectation / monitor slots
-constexpr int NSEQ = 2;   // sequence objects
+#ifndef HM_NSLOT
+#define HM_NSLOT 4
+#endif
+constexpr int NSLOT = HM_NSLOT;  // expectation / monitor slots
+#ifndef HM_NSEQ
+#define HM_NSEQ 2
+#endif
+constexpr int NSEQ = HM_NSEQ;   // sequence objects
 constexpr int NOBJ = 4;   // mock objects: 0,1 non-movable M; 2,3 movable MV
 constexpr int NWAT = 3;   // deathwatched objects
 constexpr int NTRC = 3;   // tracer nesting depth
